@@ -238,6 +238,14 @@ def build_class(prog):
             self.set_status(f'at {self.state.value}')
     for _f in (set_status, on_paused, on_playing, on_entered):
         setattr(cls, _f.__name__, _f)
+
+    def outputs(self):
+        # a class whose public `outputs` is more than what was emitted (a derived entry): "the outputs" are what the accessor says
+        base = plumpy.Process.outputs.fget(self)
+        if self.__dict__.get('_verif_uout') and base:
+            return dict(base, derived=len(base))
+        return base
+    cls.outputs = property(outputs)
     # make the class importable by name (persistence identifies classes as module:qualname)
     import hashlib
     import sys as _sys
